@@ -11,7 +11,7 @@
       (a wrap needs 2^64 pushes into one queue: out of scope, stated as an assumption);
     - heap indices are [nat]; list accesses are [nth_error]; the branches in which an index would be
       out of range (a Go run-time panic) return the heap unchanged and are unreachable, see
-      [EngineProofs.up_len]/[heap_ok] lemmas: every caller passes [i < length h];
+      [EngineProofs.up_ok]/[down_ok]/[hpop_spec]: every caller passes [i < length h];
     - [log.Panic] is an explicit outcome. *)
 From Akita Require Import Lib.Base.
 
@@ -126,6 +126,9 @@ Section Engine.
   Record engine := mke { e_now : N; e_p : queue; e_s : queue }.   (* time, queue, secondaryQueue *)
 
   Definition new_engine : engine := mke 0 q_empty q_empty.
+
+  (** SetCurrentTime *)
+  Definition set_current_time (en : engine) (t : N) : engine := mke t (e_p en) (e_s en).
 
   (** Schedule; [None] = log.Panic("scheduling an event earlier than current time").
       The second component is the queued entry (event with the sequence number it got). *)
